@@ -23,8 +23,9 @@ def make_config(rng, profile, tier):
     if profile == 'est':
         cfg['N'] = max(cfg['N'], 6)
         cfg['weight'] = rng.choice([None, None, 'col'])
-        cfg['bound_plan'] = [rng.choice(['none', 'none', 'wide', 'active_upper', 'active_lower', 'one_sided'])
+        cfg['bound_plan'] = [rng.choice(['none', 'none', 'wide', 'active_upper', 'active_lower', 'one_sided', 'zero'])
                              for _ in range(cfg['K'])]
+        cfg['max_iterations'] = rng.choice([200, 200, 200, 2, 3])
     return cfg
 
 
@@ -120,7 +121,7 @@ class Session:
         p.set_value('generate_html', False)
         p.set_value('generate_pickle', False)
         p.set_value('number_of_threads', threads)
-        p.set_value('max_iterations', 200)
+        p.set_value('max_iterations', self.cfg.get('max_iterations', 200) if getattr(self, 'bounds_resolved', False) else 200)
         return p
 
     def make_object(self, threads, permseed, cfg=None, table=None, dictform=True, save=False):
@@ -180,6 +181,10 @@ class Session:
                 self.active_planned = True
             elif plan == 'one_sided':
                 bd = [x - 5.0, None]
+            elif plan == 'zero':
+                # a bound of exactly 0, active at the optimum
+                bd = [None, 0.0] if x > 0 else [0.0, None]
+                self.active_planned = True
             if bd is not None:
                 lo, hi = bd
                 if lo is not None and init[i] < lo:
@@ -188,6 +193,9 @@ class Session:
                     init[i] = hi - 0.05
             bounds.append(bd)
         self.cfg = dict(self.cfg, bounds=bounds, init=init)
+        self.bounds_resolved = True
+        if self.cfg.get('max_iterations', 200) < 10:
+            self.ctx.probe('iteration cap of 2-3 (non-converged estimations)')
         if self.active_planned:
             self.ctx.probe('bound active at the optimum (planned)')
 
